@@ -216,6 +216,18 @@ def run(prop, tier, seed, repo, jobs):
         except Exception as e:   # pragma: no cover
             inconclusive.append('entry independence: %s' % e)
         try:
+            # "building, failing or cleaning other targets never changes that decision": --clean T leaves every record outside T's closure alone
+            st = mainrun.stage(prop, tier, repo, jobs)
+            violations += st['violations']
+            inconclusive += st['inconclusive']
+            samples += st['samples']
+            nob += st['nob']
+            ndis += st['ndis']
+            paths += st['paths']
+            fns |= st['fns']
+        except Exception as e:   # pragma: no cover
+            inconclusive.append('main() stage failed: %s' % e)
+        try:
             res = mainrun.state_file_injectivity((tier, repo))
             if res['error']:
                 inconclusive.append('record files: %s' % res['error'])
